@@ -1,4 +1,102 @@
-From HP Require Import Base.Prelude KV.Types KV.FS KV.Run.
-Example C01_smoke : snapshot kv_init <> [].
-Proof. vm_compute. discriminate. Qed.
-Print Assumptions C01_smoke.
+(* C01 -- Namespace operations of the in-memory/key-value FS behave like the os package.
+   Model: the key-value FS model (KV/FS.v, KV/Run.v); the reference is the Go os package itself, run by the
+   harness in an empty temp directory on the same history (success/failure, data, whole tree after every
+   step); the model is compared with the implementation step by step (results and whole tree).
+   The "os side" cannot be a Coq object; what is PROVED is the model's functional specification in POSIX
+   terms, for EVERY well-formed fault-free state (C03 proves every reachable state is one) and every argument:
+     Stat    succeeds iff the name is valid and present; changes nothing;
+     Mkdir   succeeds iff valid, absent and the parent is a directory; then exactly one directory record is
+             added with the requested permission bits; every failure changes nothing;
+     Remove  succeeds iff valid, present, not the root and (not a directory or an empty one); then exactly
+             that record is gone; every failure changes nothing;
+     Chmod / Chtimes succeed iff valid and present; then only that record's permission bits / mod time change;
+   plus the invariant that makes the comparison with a real tree meaningful (C03) and the handle
+   theorems of C02.  NOT proved (compared with os and the model on every run instead): the specifications
+   of OpenFile's flag combinations, WriteFullFile, MkdirAll, RemoveAll and Rename.
+   Refuted (known finding): ReadFile of a directory succeeds with no bytes where os fails with EISDIR. *)
+From HP Require Import Base.Prelude Base.Path KV.Types KV.FS KV.Handle KV.Run KV.TreeProofs KV.SpecProofs.
+Open Scope N_scope.
+
+Theorem C01_stat_spec : forall st p, good st ->
+  st_store (fst (kv_stat st p)) = st_store st /\
+  (valid_path p = false -> snd (kv_stat st p) = inr (PathErr p EINVAL)) /\
+  (valid_path p = true -> forall rc, lookup (st_store st) p = Some rc -> snd (kv_stat st p) = inl (mk_file p rc)) /\
+  (valid_path p = true -> lookup (st_store st) p = None ->
+     exists c, snd (kv_stat st p) = inr (PathErr p c) /\ enoent_or_enotdir c /\
+               ((p = dot \/ has_dir (st_store st) (path_dir p)) -> c = ENOENT)).
+Proof. exact kv_stat_spec. Qed.
+Print Assumptions C01_stat_spec.
+
+Theorem C01_mkdir_spec : forall st p perm, good st ->
+  let s := st_store st in
+  let r := kv_mkdir st p perm in
+  (valid_path p = false -> snd r = Some (PathErr p EINVAL) /\ st_store (fst r) = s) /\
+  (valid_path p = true -> lookup s p <> None -> snd r = Some (PathErr p EEXIST) /\ st_store (fst r) = s) /\
+  (valid_path p = true -> lookup s p = None -> has_dir s (path_dir p) ->
+     snd r = None /\ exists rc, st_store (fst r) = insert s p rc /\ r_mode rc = N.lor ModeDir (N.land perm ModePerm)) /\
+  (valid_path p = true -> lookup s p = None -> ~ has_dir s (path_dir p) ->
+     exists c, snd r = Some (PathErr p c) /\ enoent_or_enotdir c /\ st_store (fst r) = s).
+Proof. exact kv_mkdir_spec. Qed.
+Print Assumptions C01_mkdir_spec.
+
+Theorem C01_remove_spec : forall st p, good st ->
+  let s := st_store st in
+  let r := kv_remove st p in
+  (valid_path p = false -> snd r = Some (PathErr p EINVAL) /\ st_store (fst r) = s) /\
+  (valid_path p = true -> lookup s p = None ->
+     exists c, snd r = Some (PathErr p c) /\ enoent_or_enotdir c /\ st_store (fst r) = s) /\
+  (snd (kv_remove st dot) = Some (PathErr dot EINVAL) /\ st_store (fst (kv_remove st dot)) = s) /\
+  (valid_path p = true -> p <> dot -> forall rc, lookup s p = Some rc ->
+     if is_dir (r_mode rc) && match child_names p s with [] => false | _ => true end
+     then snd r = Some (PathErr p ENOTEMPTY) /\ st_store (fst r) = s
+     else snd r = None /\ st_store (fst r) = remove_key s p).
+Proof. exact kv_remove_spec. Qed.
+Print Assumptions C01_remove_spec.
+
+Theorem C01_chmod_spec : forall st p m, good st ->
+  let s := st_store st in
+  let r := kv_chmod st p m in
+  (valid_path p = false -> snd r = Some (PathErr p EINVAL) /\ st_store (fst r) = s) /\
+  (valid_path p = true -> lookup s p = None ->
+     exists c, snd r = Some (PathErr p c) /\ enoent_or_enotdir c /\ st_store (fst r) = s) /\
+  (valid_path p = true -> forall rc, lookup s p = Some rc ->
+     snd r = None /\ st_store (fst r) = insert s p (mkRec (chmod_mode (r_mode rc) m) (r_mtime rc) (r_cell rc))).
+Proof. exact kv_chmod_spec. Qed.
+Print Assumptions C01_chmod_spec.
+
+Theorem C01_chtimes_spec : forall st p t, good st ->
+  let s := st_store st in
+  let r := kv_chtimes st p t in
+  (valid_path p = false -> snd r = Some (PathErr p EINVAL) /\ st_store (fst r) = s) /\
+  (valid_path p = true -> lookup s p = None ->
+     exists c, snd r = Some (PathErr p c) /\ enoent_or_enotdir c /\ st_store (fst r) = s) /\
+  (valid_path p = true -> forall rc, lookup s p = Some rc ->
+     snd r = None /\ st_store (fst r) = insert s p (mkRec (r_mode rc) (Explicit t) (r_cell rc))).
+Proof. exact kv_chtimes_spec. Qed.
+Print Assumptions C01_chtimes_spec.
+
+(* the states the specifications speak about are all the reachable ones *)
+Theorem C01_reachable_states_are_good : forall ops, Forall ns_op ops -> good (exec ops).
+Proof. exact history_good. Qed.
+Print Assumptions C01_reachable_states_are_good.
+
+(* chmod only touches permission, setuid/setgid and sticky bits: the kind of the entry cannot change *)
+Theorem C01_chmod_keeps_the_kind : forall old m, is_dir (chmod_mode old m) = is_dir old.
+Proof. exact chmod_mode_is_dir. Qed.
+Print Assumptions C01_chmod_keeps_the_kind.
+
+(* refuted: reading a directory as a file *)
+Theorem C01_readfile_of_directory_refuted :
+  exists ops p, Forall ns_op ops /\ snd (step (exec ops) (ReadFile p)) = VBytes []
+                /\ exists r, lookup (st_store (exec ops)) p = Some r /\ is_dir (r_mode r) = true.
+Proof.
+  exists [Mkdir (S "d") 493], (S "d"). split; [repeat constructor|]. split; [vm_compute; reflexivity|].
+  eexists. split; vm_compute; reflexivity.
+Qed.
+Print Assumptions C01_readfile_of_directory_refuted.
+
+Example C01_nonvacuous :
+  good (exec [Mkdir (S "a") 493; WriteFile (S "a/f") [1; 2] 420])
+  /\ snd (step (exec [Mkdir (S "a") 493]) (Mkdir (S "a/b") 448)) = VOk
+  /\ snd (step (exec [Mkdir (S "a") 493]) (Mkdir (S "a") 448)) = VErr (PathErr (S "a") EEXIST).
+Proof. split; [apply history_good; repeat constructor|vm_compute; split; reflexivity]. Qed.
